@@ -34,8 +34,9 @@
 (*              invariants whose serialization is a fixpoint of Ser o Deser*)
 (*                                                                         *)
 (* Dev \subseteq {"quant-twice","tensor-meta-twice","func-input-vi-lost"}  *)
-(* switches on the pinned code's known deviations (never in the design     *)
-(* configuration; a *_dev.cfg shows that they break C02).                  *)
+(* switches on deviations observed on the code ("func-input-vi-lost" was   *)
+(* repaired by commit 3d05d7b of the repository); never set in the design  *)
+(* configurations; SerdeMC_dev.cfg shows that they break C02 (each alone does).*)
 (***************************************************************************)
 EXTENDS IRGraph
 
